@@ -690,6 +690,7 @@ class Facts:
         with open(kp) as fh:
             allk = json.load(fh)
         d = self._resolve_item_moves(crate, d, (allk.get("__adts__") or {}).get(crate) or {}, (allk.get("__statics__") or {}).get(crate) or {})
+        d = self._resolve_variant_renames(d, (allk.get("__enums__") or {}).get(crate) or {})
         d = self._resolve_field_renames(crate, d, (allk.get("__adts__") or {}).get(crate) or {})
         known = allk.get(crate)
         if not isinstance(known, dict):
@@ -847,6 +848,72 @@ class Facts:
             walk(fj["blocks"], fj["locals"])
             for pj in fj.get("promoted", []):
                 walk(pj.get("blocks", []), pj.get("locals", []))
+        return d
+
+    def _resolve_variant_renames(self, d, known_enums):
+        """A private enum of the confirmed tree whose variants kept their order and payload types but not their names
+        (`CollectCommand::{StartCollect..}` -> `{Start..}`) gets the old variant names back: in its definition, in the
+        aggregates that build it, in the variant tables of discriminant reads and in downcast projections of places of
+        that type."""
+        maps = {}
+        for a in d["adts"]:
+            kv = known_enums.get(a["path"])
+            if not kv or len(kv) != len(a["variants"]) or (a.get("pub") and a.get("reachable")):
+                continue
+            cur = [(v["name"], [x["ty"] for x in v["fields"]]) for v in a["variants"]]
+            if [n for n, _ in cur] == [n for n, _ in kv]:
+                continue
+            if [t for _, t in cur] != [t for _, t in kv]:
+                continue
+            m = {c[0]: k[0] for c, k in zip(cur, kv) if c[0] != k[0]}
+            if m:
+                maps[a["path"]] = m
+                for v in a["variants"]:
+                    v["name"] = m.get(v["name"], v["name"])
+                self.renamed[a["path"] + "::*"] = m
+        if not maps:
+            return d
+        name_sets = {p: set(m) for p, m in maps.items()}
+
+        def fix_place(pl, locals_):
+            if not pl.get("p") or pl["l"] >= len(locals_):
+                return
+            ty = locals_[pl["l"]]
+            for i, e in enumerate(pl["p"]):
+                if ty is None:
+                    return
+                if e == "*":
+                    ty = Facts._ty_deref(ty)
+                elif isinstance(e, str) and e.startswith("@"):
+                    head = Facts._ty_head(ty)
+                    if head in maps and e[1:] in maps[head]:
+                        pl["p"][i] = "@" + maps[head][e[1:]]
+                    return
+                else:
+                    return
+
+        def walk(x, locals_):
+            if isinstance(x, list):
+                for e in x:
+                    walk(e, locals_)
+            elif isinstance(x, dict):
+                if isinstance(x.get("l"), int) and isinstance(x.get("p"), list):
+                    fix_place(x, locals_)
+                if x.get("k") == "agg" and x.get("adt") in maps and x.get("variant") in maps[x["adt"]]:
+                    x["variant"] = maps[x["adt"]][x["variant"]]
+                if x.get("k") == "discr" and isinstance(x.get("variants"), list):
+                    names = {n for _, n in x["variants"]}
+                    for p, ns in name_sets.items():
+                        pl = x.get("place") or {}
+                        ty = locals_[pl["l"]] if isinstance(pl.get("l"), int) and pl["l"] < len(locals_) else ""
+                        if names & ns and (Facts._ty_head(ty) == p or not pl.get("p") and p in ty or names <= (ns | set(maps[p].values()))):
+                            x["variants"] = [[i, maps[p].get(n, n)] for i, n in x["variants"]]
+                            break
+                for v in x.values():
+                    if isinstance(v, (dict, list)):
+                        walk(v, locals_)
+        for fj in d["fns"]:
+            walk(fj["blocks"], fj["locals"])
         return d
 
     def _resolve_field_renames(self, crate, d, known_adts):
